@@ -7,7 +7,7 @@ Record response := mkresp { r_status : Z; r_headers : hdrs; r_body : list nat }.
 
 (* an action that makes the handler panic: an explicit panic or a status code net/http refuses *)
 Definition panics (a : action) : bool :=
-  match a with PanicA => true | WriteHeader c => negb (valid_code c) | _ => false end.
+  match a with PanicA _ => true | WriteHeader c => negb (valid_code c) | _ => false end.
 
 (* the part of the script the handler gets to execute: everything before its first panic *)
 Fixpoint effective (acts : list action) : list action :=
@@ -34,19 +34,30 @@ Definition spec_headers (acts : list action) : hdrs := fold_left hdr_op acts [].
 Definition spec_body (acts : list action) : list nat :=
   flat_map (fun a => match a with Write bs => bs | _ => [] end) acts.
 
+(* the value of the first panic of the script, and whether the guards notice it *)
+Fixpoint first_panic (acts : list action) : option pvalue :=
+  match acts with [] => None | a :: r => if panics a then Some (panic_value_of a) else first_panic r end.
+Definition panic_seen (sees : pvalue -> bool) (acts : list action) : bool :=
+  match first_panic acts with Some v => sees v | None => false end.
+
 (* The handler's response when it runs to completion behind the timeout guard (buffered: headers as of
    completion).  `recover`: RecoverHandler is inside; then a panic costs the handler the rest of its
-   script and yields 500 if it had not committed a status yet.  None = the panic reaches the server. *)
-Definition handler_response (recover : bool) (rh0 : hdrs) (acts : list action) : option response :=
+   script and yields 500 if it had not committed a status yet.  None = no handler response: the panic reaches
+   the server (or, unnoticed, just ends the handler goroutine).  `sees v`: the guards notice a panic with v. *)
+Definition handler_response_gen (sees : pvalue -> bool) (recover : bool) (rh0 : hdrs) (acts : list action) : option response :=
   let e := effective acts in
   if has_panic acts && negb recover then None
   else Some (mkresp
                (match commit_status e with
                 | Some c => c
-                | None => if has_panic acts then statusInternalServerError else statusOK
+                | None => if panic_seen sees acts then statusInternalServerError else statusOK
                 end)
                (hmerge rh0 (spec_headers e))
                (spec_body e)).
+(* THE PROPERTY: every panic, whatever its value, is a panic *)
+Definition spec_response := handler_response_gen (fun _ => true).
+(* what the code does: a panic counts when `recover() != nil` (Model.recover_sees) *)
+Definition handler_response := handler_response_gen recover_sees.
 
 (* The timeout response: 503 (499 when the client went away), the fixed text, and no handler header. *)
 Definition timeout_response (c : cause) (rh0 : hdrs) : response :=
